@@ -14,6 +14,7 @@ import Umya.Driver.C15
 import Umya.Driver.C02
 import Umya.Driver.C05
 import Umya.Driver.C01
+import Umya.Driver.C04
 
 structure DState where
   c10 : Umya.Driver.C10.St := {}
@@ -37,6 +38,7 @@ def dispatch (st : DState) (line : String) : DState × String :=
   | "c16" :: args => (st, Umya.Driver.C16.handle args)
   | "c12" :: args => (st, Umya.Driver.C12.handle args)
   | "c20" :: args => let (s, r) := Umya.Driver.C20.handle st.c20 args; ({ st with c20 := s }, r)
+  | "c04" :: args => (st, Umya.Driver.C04.handle args)
   | "c01" :: args => let (s, r) := Umya.Driver.C01.handle st.c01 args; ({ st with c01 := s }, r)
   | "c05" :: args => let (s, r) := Umya.Driver.C05.handle st.c05 args; ({ st with c05 := s }, r)
   | "c02" :: args => let (s, r) := Umya.Driver.C02.handle st.c02 args; ({ st with c02 := s }, r)
